@@ -86,7 +86,7 @@ fn file_val(id: Option<u8>, offset: Option<u32>) -> Val {
     let o = |x: Option<u64>| x.map(|v| Val::Some(Box::new(Val::U(v)))).unwrap_or(Val::None);
     Val::St("feig.tlv.File".into(), vec![("file_id".into(), o(id.map(|v| v as u64))), ("file_offset".into(), o(offset.map(|v| v as u64))), ("file_size".into(), Val::None), ("payload".into(), Val::None)])
 }
-fn request_bytes(t: &Table, r: &Req) -> Vec<u8> {
+pub fn request_bytes(t: &Table, r: &Req) -> Vec<u8> {
     let file = match r.malformed.as_str() {
         "no-id" => Some(file_val(None, Some(r.offset))),
         "no-offset" => Some(file_val(Some(r.id), None)),
